@@ -1,5 +1,14 @@
 """Which contract families decide which property, and at what claimed level."""
 PROPS = {
+    'C09': {
+        'families': ['contracts.graph'],
+        'level': 'proof',
+        'technique': 'contract-based deductive verification: VCs from the real AST (incl. DFS loop invariants), z3/cvc5',
+        'text': 'Contracts on DependencyGraph (add_node, add_dependency, remove_dependencies, finalize, get_node, '
+                'get_leaf_nodes, get_ordered) for all graphs.',
+        'level_note': 'Trusted: pyvc engine/encoding; termination of the DFS not proved.',
+        'not_decided': ["Django's own MigrationGraph plan order (trusted)"],
+    },
     'C17': {
         'families': ['contracts.execution'],
         'level': 'proof',
